@@ -334,7 +334,10 @@ def write_json(path, cols, rows, null_style='null'):
         for c, v in zip(cols, r):
             if v is None and null_style == 'absent':
                 continue
-            d[c] = plain_value(v)
+            tgt, parts = d, c.split('.')
+            for q in parts[:-1]:      # dotted column names are paths into nested objects
+                tgt = tgt.setdefault(q, {})
+            tgt[parts[-1]] = plain_value(v)
         recs.append(d)
     with open(path, 'w', encoding='utf-8') as f:
         json.dump(recs, f, ensure_ascii=False)
